@@ -211,7 +211,15 @@ func runControls(pr *Property, repo, verif string) ([]controlResult, []Obligatio
 func runControl(m Mutant, repo string) controlResult {
 	res := controlResult{Name: m.Name, Rule: m.Rule}
 	src, err := os.ReadFile(filepath.Join(repo, m.File))
-	if err != nil || strings.Count(string(src), m.Old) != 1 {
+	newFile := m.Old == ""
+	if newFile {
+		if err == nil {
+			res.Status = "control-skipped"
+			res.Detail = "file " + m.File + " already exists"
+			return res
+		}
+		src = nil
+	} else if err != nil || strings.Count(string(src), m.Old) != 1 {
 		res.Status = "control-skipped"
 		res.Detail = "anchor text not present exactly once in " + m.File + " (the code moved on)"
 		return res
@@ -242,6 +250,9 @@ func runControl(m Mutant, repo string) controlResult {
 		return res
 	}
 	mutated := strings.Replace(string(src), m.Old, m.New, 1)
+	if newFile {
+		mutated = m.New
+	}
 	if err := os.WriteFile(filepath.Join(dir, m.File), []byte(mutated), 0o644); err != nil {
 		res.Status = "did-not-fire"
 		res.Detail = err.Error()
